@@ -14,6 +14,9 @@ import sys
 
 from . import gen
 from .core import BudgetExceeded, fork_call, rng, sunk_stdout
+from . import simfs
+from .core import ChildFailed, VERIF_DIR
+from .minimise import ddmin
 from .intr import Tracer
 
 COUNT_BUDGET = 1_200_000       # line events per count inside a session (rational Meek guard)
@@ -163,10 +166,8 @@ def exec_session(R, texts, ops, target, want_fp=False):
             finally:
                 tr.remove()
         return render(E, op['render'], interrupted), interrupted
-
-    from . import simfs     # pylint: disable=import-outside-toplevel
     fs = simfs.SimFS()
-    with sunk_stdout(), simfs.mounted(R.droop.profile, fs):
+    with sunk_stdout(), simfs.mounted(R.droop.profile, fs), simfs.stat_patched(fs):
         for op in ops:
             kind = op['op']
             try:
@@ -527,7 +528,6 @@ SESSION_WALL = 150.0       # seconds for the target alone (sessions take millise
 
 def _timed(fn, args, timeout, what):
     "fork_call, but a child that runs into the wall-clock limit is an outcome ('timeout'), not a harness error"
-    from .core import ChildFailed       # pylint: disable=import-outside-toplevel
     try:
         return fork_call(fn, args, timeout=timeout, what=what)
     except ChildFailed as e:
@@ -583,7 +583,6 @@ def fresh_exec(R, texts, target):
     import json         # pylint: disable=import-outside-toplevel
     import os           # pylint: disable=import-outside-toplevel
     import subprocess   # pylint: disable=import-outside-toplevel
-    from .core import VERIF_DIR     # pylint: disable=import-outside-toplevel
     env = dict(os.environ)
     env['PYTHONHASHSEED'] = 'random'
     p = subprocess.run([sys.executable, '-c', _FRESH], input=json.dumps(dict(
@@ -739,7 +738,6 @@ def run_replay(R, obj):
 
 def minimise(R, seed, v):
     "ddmin over the history, then drop option keys of the surviving predecessors"
-    from .minimise import ddmin     # pylint: disable=import-outside-toplevel
     sess = v['session']
     texts, target = sess['texts'], sess['target']
     cache = {}
